@@ -1,0 +1,74 @@
+//go:build verif
+
+package ucfg
+
+import "reflect"
+
+// Ghost clients ("lemmas"): small compositions of real functions whose postconditions are proved from the
+// contracts of the functions they call. Compiled only with the build tag "verif"; never called.
+
+// C06, numeric leaf of the round trip: an int64 field value normalized into a config value and read
+// back as an integer is the same number.
+//
+//@ func lemmaC06Int64 :: opts, ctx, x -> y, err
+//@ props C06
+//@ uses boxkinds
+//@ requires opts != nil
+//@ requires rvType(rvOf(toAny(x))) != tDuration && rvType(rvOf(toAny(x))) != tRegexp
+//@ modifies *
+//@ ensures [roundtrip] err == nil && y == x
+func lemmaC06Int64(opts *options, ctx context, x int64) (int64, error) {
+	rv := reflect.ValueOf(x)
+	chaseValue(rv)
+	v, err := normalizeValue(opts, tagOptions{}, ctx, rv)
+	if err != nil {
+		return 0, err
+	}
+	switch c := v.(type) {
+	case *cfgInt:
+		return c.toInt(opts)
+	case *cfgUint:
+		return c.toInt(opts)
+	}
+	return 0, ErrTypeMismatch
+}
+
+//@ func lemmaC06Uint64 :: opts, ctx, x -> y, err
+//@ props C06
+//@ uses boxkinds
+//@ requires opts != nil
+//@ requires rvType(rvOf(toAny(x))) != tDuration && rvType(rvOf(toAny(x))) != tRegexp
+//@ modifies *
+//@ ensures [roundtrip] err == nil && y == x
+func lemmaC06Uint64(opts *options, ctx context, x uint64) (uint64, error) {
+	rv := reflect.ValueOf(x)
+	chaseValue(rv)
+	v, err := normalizeValue(opts, tagOptions{}, ctx, rv)
+	if err != nil {
+		return 0, err
+	}
+	if c, ok := v.(*cfgUint); ok {
+		return c.toUint(opts)
+	}
+	return 0, ErrTypeMismatch
+}
+
+//@ func lemmaC06Float64 :: opts, ctx, x -> y, err
+//@ props C06
+//@ uses boxkinds
+//@ requires opts != nil
+//@ requires rvType(rvOf(toAny(x))) != tDuration && rvType(rvOf(toAny(x))) != tRegexp
+//@ modifies *
+//@ ensures [roundtrip] err == nil && same(y, x)
+func lemmaC06Float64(opts *options, ctx context, x float64) (float64, error) {
+	rv := reflect.ValueOf(x)
+	chaseValue(rv)
+	v, err := normalizeValue(opts, tagOptions{}, ctx, rv)
+	if err != nil {
+		return 0, err
+	}
+	if c, ok := v.(*cfgFloat); ok {
+		return c.toFloat(opts)
+	}
+	return 0, ErrTypeMismatch
+}
